@@ -435,7 +435,9 @@ inline int is_z(const Ctx& C, int which, int base, bool upper, int sub) {
   mpz_srcptr z = which == 0 ? C.a.v : which == 1 ? C.b.v : C.c.v;
   std::string txt = std::string(WS[sub % 4]) + in_text(z, base, upper, sub) + " tail";
   std::istringstream is(txt); set_in_base(is, base);
-  mpz_class x(12345); std::string tail;
+  // the target's previous value varies: small, a multi-limb negative value, or another generated variable
+  mpz_class x(12345); if ((sub >> 3) % 3 == 1) { x = 1; x <<= 200; x = -x - 77; } else if ((sub >> 3) % 3 == 2) x = mpz_class(which == 0 ? C.b.v : C.a.v);
+  std::string tail;
   RT_GO is >> x; RT_END
   int bad = chki(is.fail(), 0, "fail") | chk(x, z, "value");
   is >> tail;
@@ -447,7 +449,9 @@ inline int is_q(const Ctx& C, int which, int base, bool upper, int sub) {
   bool with_den = mpz_cmp_ui(mpq_denref(v), 1) != 0 || (sub & 4);
   if (with_den) txt += "/" + in_text(mpq_denref(v), base, upper, sub / 3);   // base indicator read separately for num and den
   std::istringstream is(txt + " tail"); set_in_base(is, base);
-  mpq_class x(7, 3); std::string tail;
+  // the target's previous value varies: small, a negative value over a multi-limb denominator, or another generated variable
+  mpq_class x(7, 3); if ((sub >> 3) % 3 == 1) { mpz_class d(1); d <<= 130; d += 5; x = mpq_class(mpz_class(-9), d); } else if ((sub >> 3) % 3 == 2) x = mpq_class(which == 0 ? C.r.v : C.q.v);
+  std::string tail;
   RT_GO is >> x; RT_END
   int bad = chki(is.fail(), 0, "fail") | chk(x, v, "value");
   is >> tail;
@@ -458,7 +462,8 @@ inline int is_f(const Ctx& C, int sidx, ul prec) {
   const char* s = S[sidx % 12];
   F w(prec); if (mpf_set_str(w.v, s, 10) != 0) harness("is_f string");
   std::istringstream is(std::string(WS[C.u1 % 4]) + s + " tail");
-  mpf_class x(99, prec); std::string tail;
+  mpf_class x(99, prec); if (sidx / 12 % 2) { x = -1; x <<= 300; x -= 1; }   // previous value: small, or a long negative mantissa with a large exponent
+  std::string tail;
   RT_GO is >> x; RT_END
   int bad = chki(is.fail(), 0, "fail") | chk(x, w.v, "value");
   is >> tail;
